@@ -72,14 +72,46 @@ class AssocDict:
         return len(self.items_)
 
 
+class _RecFile:
+    """the terminal behind a stream: one item per print() of the real stream class (text, then the newline print() appends)"""
+
+    def __init__(self, items):
+        self.items = items
+        self.pending = None
+
+    def write(self, s):
+        if s == chr(10):
+            self.items.append(self.pending if self.pending is not None else '')
+            self.pending = None
+        else:
+            self.pending = (self.pending or '') + s
+        return len(s)
+
+    def flush(self):
+        pass
+
+    def isatty(self):
+        return False
+
+
 class RecStream:
-    """recording stream.Base replacement: list of written items"""
+    """recording stdout / stderr: the REAL stream class (core.output.stream.Std) writing to a recording file object; `items` = what reached the terminal,
+    one entry per print. (If the stream classes cannot be imported or constructed this way, writes are recorded directly.)"""
 
     def __init__(self):
         self.items = []
+        self._real = None
+        try:
+            from core.output import stream
+            self._real = stream.Std(_RecFile(self.items))
+        except Exception:
+            self._real = None
 
     def write(self, thing):
-        self.items.append(str(thing))
+        if self._real is not None:
+            self._real.write(thing)
+        else:
+            self.items.append(str(thing))
 
 
 def make_output(show_unprocessed=True):
